@@ -164,7 +164,30 @@ def run(chk):
             return ("violated", f"compiled more than once: {', '.join(twice)}" + ("\n" + sx.show(out.result) if out.ok else ""), None)
         if not out.ok and sx.is_hy_user_error(out.exc):
             return ("hy-error", None, None)
+        # ... and at least once: a sub-form in an evaluated position is compiled whatever stands before it (a `return`, `raise`,
+        # `break` earlier in the body makes it unreachable at run time, but its compile-time half still has to run)
+        if out.ok and entry.name.startswith("c16/"):
+            never = sorted(t.name for t in toks if isinstance(t, Tok) and t.name not in counts)
+            if never:
+                return ("violated", f"never compiled: {', '.join(never)}\n" + sx.show(out.result), None)
         return ("ok", None, None)
+    from hv.catalog import Entry
+    from hv.catalog import B as CB
+    from hy.models import List as L_
+    U = lambda n: S("u_" + n)
+    for nm, b in {
+        "c16/fn-body-after-return": lambda a, x: E(S("fn"), L_([]), E(S("return"), a), x),
+        "c16/defn-body-after-return": lambda a, x, y: E(S("defn"), U("f"), L_([]), E(S("return"), a), x, y),
+        "c16/fn-body-after-return-in-when": lambda c, a, x, y: E(S("fn"), L_([]), E(S("when"), c, E(S("return"), a), x), y),
+        "c16/do-after-return": lambda a, x: E(S("fn"), L_([]), E(S("do"), E(S("return"), a), x)),
+        "c16/body-after-raise": lambda a, x: E(S("do"), E(S("raise"), a), x),
+        "c16/while-body-after-break": lambda c, x: E(S("while"), c, E(S("break")), x),
+        "c16/for-body-after-continue": lambda xs, x: E(S("for"), L_([U("i"), xs]), E(S("continue")), x),
+        "c16/if-branches-after-constant-test": lambda x, y: E(S("if"), S("True"), x, y),
+        "c16/try-body-after-return": lambda a, x, h: E(S("fn"), L_([]), E(S("try"), E(S("return"), a), x, E(S("finally"), h))),
+    }.items():
+        import inspect
+        Entry(nm, b, [CB] * len(inspect.signature(b).parameters), "hy/compiler.py::HyASTCompiler._compile_branch")
     structural.run(chk, "compile-once", compiled_once, prefix="compile-once")
     # defmacro
     from hy.reader import mangle
